@@ -2074,15 +2074,13 @@ impl StorageEngine {
     pub fn keys(&self, db: DatabaseIndex, pattern: &[u8]) -> Result<Vec<Vec<u8>>> {
         let database = self.databases.get(db).ok_or(StorageError::InvalidDatabase)?;
         
-        let pattern_str = String::from_utf8_lossy(pattern);
         let mut matching_keys = Vec::new();
         
         // Collect keys from all shards
         for shard in &database.shards {
             let shard_guard = shard.read().unwrap();
             for key in shard_guard.data.keys() {
-                let key_str = String::from_utf8_lossy(key);
-                if pattern_matches(&pattern_str, &key_str) {
+                if pattern_matches(pattern, key) {
                     matching_keys.push(key.clone());
                 }
             }
@@ -2241,8 +2239,6 @@ impl StorageEngine {
         let mut keys_examined = 0;
         let mut current_pos = start_pos;
         
-        let pattern_str = pattern.map(|p| String::from_utf8_lossy(p));
-        
         while keys_examined < max_scan_count * 10 && matching_keys.len() < max_scan_count {
             if current_pos >= all_keys.len() {
                 break;
@@ -2251,9 +2247,8 @@ impl StorageEngine {
             let key = &all_keys[current_pos];
             let mut include_key = true;
             
-            if let Some(ref pat) = pattern_str {
-                let key_str = String::from_utf8_lossy(key);
-                if !pattern_matches(pat, &key_str) {
+            if let Some(pat) = pattern {
+                if !pattern_matches(pat, key) {
                     include_key = false;
                 }
             }
@@ -2303,7 +2298,6 @@ impl StorageEngine {
                 let mut result = Vec::new();
                 let mut fields_examined = 0;
                 let mut current_pos = start_pos;
-                let pattern_str = pattern.map(|p| String::from_utf8_lossy(p));
                 
                 while fields_examined < max_scan_count * 10 && (result.len() / if no_values { 1 } else { 2 }) < max_scan_count {
                     if current_pos >= fields.len() {
@@ -2313,9 +2307,8 @@ impl StorageEngine {
                     let field = &fields[current_pos];
                     let mut include_field = true;
                     
-                    if let Some(ref pat) = pattern_str {
-                        let field_str = String::from_utf8_lossy(field);
-                        if !pattern_matches(pat, &field_str) {
+                    if let Some(pat) = pattern {
+                        if !pattern_matches(pat, field) {
                             include_field = false;
                         }
                     }
@@ -2370,7 +2363,6 @@ impl StorageEngine {
                 let mut result = Vec::new();
                 let mut members_examined = 0;
                 let mut current_pos = start_pos;
-                let pattern_str = pattern.map(|p| String::from_utf8_lossy(p));
                 
                 while members_examined < max_scan_count * 10 && result.len() < max_scan_count {
                     if current_pos >= members.len() {
@@ -2380,9 +2372,8 @@ impl StorageEngine {
                     let member = &members[current_pos];
                     let mut include_member = true;
                     
-                    if let Some(ref pat) = pattern_str {
-                        let member_str = String::from_utf8_lossy(member);
-                        if !pattern_matches(pat, &member_str) {
+                    if let Some(pat) = pattern {
+                        if !pattern_matches(pat, member) {
                             include_member = false;
                         }
                     }
@@ -2438,7 +2429,6 @@ impl StorageEngine {
                 let mut result = Vec::new();
                 let mut items_examined = 0;
                 let mut current_pos = start_pos;
-                let pattern_str = pattern.map(|p| String::from_utf8_lossy(p));
                 
                 while items_examined < max_scan_count * 10 && result.len() < max_scan_count {
                     if current_pos >= items.len() {
@@ -2448,9 +2438,8 @@ impl StorageEngine {
                     let (member, score) = &items[current_pos];
                     let mut include_item = true;
                     
-                    if let Some(ref pat) = pattern_str {
-                        let member_str = String::from_utf8_lossy(member);
-                        if !pattern_matches(pat, &member_str) {
+                    if let Some(pat) = pattern {
+                        if !pattern_matches(pat, member) {
                             include_item = false;
                         }
                     }
@@ -2665,10 +2654,11 @@ mod tests {
     }
 }
 
-/// Simple glob pattern matching (unchanged)
-fn pattern_matches(pattern: &str, text: &str) -> bool {
-    let pattern_chars: Vec<char> = pattern.chars().collect();
-    let text_chars: Vec<char> = text.chars().collect();
+/// Glob pattern matching over bytes (keys are binary-safe: `?` and classes consume one byte,
+/// and a byte that is not valid UTF-8 matches only itself)
+fn pattern_matches(pattern: &[u8], text: &[u8]) -> bool {
+    let pattern_chars = pattern;
+    let text_chars = text;
     
     let mut p_idx = 0;
     let mut t_idx = 0;
@@ -2678,27 +2668,27 @@ fn pattern_matches(pattern: &str, text: &str) -> bool {
     while t_idx < text_chars.len() {
         if p_idx < pattern_chars.len() {
             match pattern_chars[p_idx] {
-                '?' => {
+                b'?' => {
                     p_idx += 1;
                     t_idx += 1;
                     continue;
                 }
-                '*' => {
+                b'*' => {
                     star_idx = Some(p_idx);
                     star_match_idx = t_idx;
                     p_idx += 1;
                     continue;
                 }
-                '[' => {
-                    if let Some(end) = pattern_chars[p_idx..].iter().position(|&c| c == ']') {
+                b'[' => {
+                    if let Some(end) = pattern_chars[p_idx..].iter().position(|&c| c == b']') {
                         let class_end = p_idx + end;
-                        let negate = p_idx + 1 < class_end && pattern_chars[p_idx + 1] == '^';
+                        let negate = p_idx + 1 < class_end && pattern_chars[p_idx + 1] == b'^';
                         let start_idx = if negate { p_idx + 2 } else { p_idx + 1 };
                         
                         let mut matched = false;
                         let mut i = start_idx;
                         while i < class_end {
-                            if i + 2 < class_end && pattern_chars[i + 1] == '-' {
+                            if i + 2 < class_end && pattern_chars[i + 1] == b'-' {
                                 if text_chars[t_idx] >= pattern_chars[i] && text_chars[t_idx] <= pattern_chars[i + 2] {
                                     matched = true;
                                     break;
@@ -2720,7 +2710,7 @@ fn pattern_matches(pattern: &str, text: &str) -> bool {
                         }
                     }
                 }
-                '\\' if p_idx + 1 < pattern_chars.len() => {
+                b'\\' if p_idx + 1 < pattern_chars.len() => {
                     if pattern_chars[p_idx + 1] == text_chars[t_idx] {
                         p_idx += 2;
                         t_idx += 1;
@@ -2746,7 +2736,7 @@ fn pattern_matches(pattern: &str, text: &str) -> bool {
         }
     }
     
-    while p_idx < pattern_chars.len() && pattern_chars[p_idx] == '*' {
+    while p_idx < pattern_chars.len() && pattern_chars[p_idx] == b'*' {
         p_idx += 1;
     }
     
